@@ -85,18 +85,15 @@ func (c *AttrCache) Get(path string, server ...*AbsfsNFS) (*NFSAttrs, bool) {
 		s = server[0]
 	}
 
-	c.mu.RLock()
+	// One critical section reads the entry and marks it as recently used, so
+	// that an eviction by a concurrent Put sees the recency this Get implies.
+	c.mu.Lock()
 	cached, ok := c.cache[path]
 	if ok && time.Now().Before(cached.expireAt) {
 		// Handle negative cache entry
 		if cached.isNegative {
-			c.mu.RUnlock()
-
 			// Update access log (LRU tracking)
-			c.mu.Lock()
-			if _, stillExists := c.cache[path]; stillExists {
-				c.updateAccessLog(path)
-			}
+			c.updateAccessLog(path)
 			c.mu.Unlock()
 
 			// Record negative cache hit for metrics
@@ -124,15 +121,9 @@ func (c *AttrCache) Get(path string, server ...*AbsfsNFS) (*NFSAttrs, bool) {
 		}
 		attrs.SetMtime(cached.attrs.Mtime())
 		attrs.SetAtime(cached.attrs.Atime())
-		c.mu.RUnlock()
 
 		// Update access log (LRU tracking)
-		c.mu.Lock()
-		// Revalidate that entry still exists before updating access log
-		// This prevents race condition where entry could be deleted between locks
-		if _, stillExists := c.cache[path]; stillExists {
-			c.updateAccessLog(path)
-		}
+		c.updateAccessLog(path)
 		c.mu.Unlock()
 
 		// Record cache hit for metrics
@@ -148,7 +139,7 @@ func (c *AttrCache) Get(path string, server ...*AbsfsNFS) (*NFSAttrs, bool) {
 
 		return attrs, true
 	}
-	c.mu.RUnlock()
+	c.mu.Unlock()
 
 	// Record cache miss for metrics
 	if s != nil {
@@ -565,17 +556,19 @@ func NewDirCache(timeout time.Duration, maxEntries int, maxDirSize int) *DirCach
 
 // Get retrieves cached directory entries if they exist and are not expired
 func (c *DirCache) Get(path string) ([]os.FileInfo, bool) {
-	c.mu.RLock()
+	// One critical section reads the listing and marks it as recently used
+	// (see AttrCache.Get).
+	c.mu.Lock()
 	cached, ok := c.entries[path]
 	if !ok {
-		c.mu.RUnlock()
+		c.mu.Unlock()
 		atomic.AddUint64(&c.misses, 1)
 		return nil, false
 	}
 
 	// Check if expired
 	if time.Now().After(cached.validUntil) {
-		c.mu.RUnlock()
+		c.mu.Unlock()
 		atomic.AddUint64(&c.misses, 1)
 
 		// Remove expired entry with re-check after lock upgrade
@@ -592,14 +585,9 @@ func (c *DirCache) Get(path string) ([]os.FileInfo, bool) {
 	// Make a copy of the entries to prevent modification
 	entries := make([]os.FileInfo, len(cached.entries))
 	copy(entries, cached.entries)
-	c.mu.RUnlock()
 
 	// Update access log (LRU tracking)
-	c.mu.Lock()
-	// Revalidate that entry still exists before updating access log
-	if _, stillExists := c.entries[path]; stillExists {
-		c.updateAccessLog(path)
-	}
+	c.updateAccessLog(path)
 	c.mu.Unlock()
 
 	atomic.AddUint64(&c.hits, 1)
